@@ -681,6 +681,82 @@ def copy_tree(t):
     return t
 
 
+def init_tree(prog, cname, sizes=None):
+    """value tree of a freshly constructed object (declared initial values, declared list
+    sizes); sizes: optional callable(fdef) -> length for random-size lists"""
+    prog = prog if isinstance(prog, Prog) else Prog(prog)
+    out = {}
+    for f in prog.fields(cname):
+        k = f["k"]
+        if k == "s":
+            v = f.get("i") or 0
+            out[f["n"]] = to_signed(v & mask(f["w"]), f["w"]) if f["s"] else v & mask(f["w"])
+        elif k == "e":
+            out[f["n"]] = sorted(prog.enum_values(f["en"]))[0]
+        elif k in ("l", "le"):
+            n = f.get("sz", 0)
+            if f.get("rsz") and sizes is not None:
+                n = sizes(f)
+            z = 0 if k == "l" else sorted(prog.enum_values(f["en"]))[0]
+            out[f["n"]] = [z] * n
+        elif k == "o":
+            out[f["n"]] = init_tree(prog, f["c"], sizes)
+        elif k == "lo":
+            out[f["n"]] = [init_tree(prog, f["c"], sizes) for _ in range(f.get("sz", 0))]
+    return out
+
+
+def class_rangelists(prog, cname):
+    prog = prog if isinstance(prog, Prog) else Prog(prog)
+    out = {}
+    for c in prog.mro(cname):
+        for rl in c.get("rls", []):
+            out[rl["n"]] = [list(x) if isinstance(x, (list, tuple)) else x for x in rl["items"]]
+    return out
+
+
+def sample_sat(prog, cname, rng, tries=200):
+    """True if one of `tries` random assignments of the random scalars of a freshly
+    constructed object satisfies every class constraint (generation-time filter only:
+    it decides nothing about the library)."""
+    prog = prog if isinstance(prog, Prog) else Prog(prog)
+    rls = class_rangelists(prog, cname)
+    for _ in range(tries):
+        try:
+            t = init_tree(prog, cname, sizes=lambda f: rng.randint(0, 4))
+            for q in rand_scalar_paths(prog, cname, t):
+                d = path_domain(prog, cname, q)
+                set_path(t, q, d[rng.randrange(len(d))])
+            if check_tree(prog, cname, t, None, rls) is None:
+                return True
+        except RefError:
+            continue
+    return False
+
+
+def sample_witness(prog, cname, tree, rng, rand_off=None, modes=None, rangelists=None,
+                   inline=None, tries=400, max_size=6, sizes=None):
+    """searches, by random sampling from the given pre-call value tree, for an assignment of
+    the random scalars (and of the lengths and contents of top-level random-size lists) that
+    satisfies every enforced constraint.  Returns the witness tree or None (None decides
+    nothing).  One-sided oracle for programs too large to enumerate."""
+    prog = prog if isinstance(prog, Prog) else Prog(prog)
+    rsz = [f for f in prog.fields(cname) if f["k"] == "l" and f.get("rsz")]
+    for _ in range(tries):
+        try:
+            t = copy_tree(tree)
+            for f in rsz:
+                t[f["n"]] = [0] * (sizes[f["n"]] if sizes and f["n"] in sizes else rng.randint(0, max_size))
+            for q in rand_scalar_paths(prog, cname, t, rand_off):
+                d = path_domain(prog, cname, q)
+                set_path(t, q, d[rng.randrange(len(d))])
+            if check_tree(prog, cname, t, modes, rangelists, inline) is None:
+                return t
+        except RefError:
+            continue
+    return None
+
+
 def domain_size(prog, cname, paths):
     n = 1
     for p in paths:
